@@ -236,3 +236,72 @@ Proof.
   - rewrite Z2Nat.id by lia. exact Hidx.
   - exists l'. rewrite Z2Nat.id in H0 by lia. auto.
 Qed.
+
+(* ------------------------------------------------------------------------------------------------ *)
+(** * blind rotation: the exponent is +-((k >> bit_rsh) mod 2^bit_mask) << bit_lsh *)
+
+Lemma p_rot_rot n a b q j : 0 < n -> p_rot n a (p_rot n b q) j = p_rot n (a + b) q j.
+Proof.
+  intros Hn. unfold p_rot. cbv zeta.
+  set (q1 := (j - a) / n). set (s1 := (j - a) mod n).
+  set (q2 := (s1 - b) / n). set (s2 := (s1 - b) mod n).
+  assert (H1 : j - a = n * q1 + s1) by (apply Z.div_mod; lia).
+  assert (H2 : s1 - b = n * q2 + s2) by (apply Z.div_mod; lia).
+  assert (R2 : 0 <= s2 < n) by (apply Z.mod_pos_bound; lia).
+  destruct (div_mod_small (j - (a + b)) n (q1 + q2) s2 Hn R2 ltac:(lia)) as [-> ->].
+  rewrite Z.even_add. destruct (Z.even q1), (Z.even q2); cbn; lia.
+Qed.
+
+Fixpoint rot_amount (kw rsh lsh i : Z) (cnt : nat) : Z :=
+  match cnt with
+  | O => 0
+  | S c => (if Z.testbit kw (i + rsh) then 2 ^ (i + lsh) else 0) + rot_amount kw rsh lsh (i + 1) c
+  end.
+
+Lemma rot_amount_closed kw rsh lsh : 0 <= rsh -> 0 <= lsh -> forall cnt i, 0 <= i ->
+  rot_amount kw rsh lsh i cnt = 2 ^ lsh * (2 ^ i * ((kw / 2 ^ (rsh + i)) mod 2 ^ Z.of_nat cnt)).
+Proof.
+  intros Hr Hl. induction cnt as [|c IH]; intros i Hi.
+  - cbn. rewrite Z.mod_1_r. ring.
+  - cbn [rot_amount]. rewrite IH by lia.
+    set (x := kw / 2 ^ (rsh + i)).
+    assert (Ex : kw / 2 ^ (rsh + (i + 1)) = x / 2).
+    { unfold x. replace (rsh + (i + 1)) with ((rsh + i) + 1) by lia. rewrite Z.pow_add_r by lia.
+      change (2 ^ 1) with 2. rewrite Z.div_div by (try apply Z.pow_pos_nonneg; lia). reflexivity. }
+    rewrite Ex. rewrite Nat2Z.inj_succ, Z.pow_succ_r by lia.
+    assert (Hp : 0 < 2 ^ Z.of_nat c) by (apply Z.pow_pos_nonneg; lia).
+    rewrite (Z.rem_mul_r x 2 (2 ^ Z.of_nat c)) by lia.
+    assert (Eb : Z.b2z (Z.testbit kw (i + rsh)) = x mod 2).
+    { unfold x. rewrite Z.testbit_spec' by lia. f_equal. f_equal. f_equal. lia. }
+    rewrite (Z.pow_add_r 2 i lsh), (Z.pow_add_r 2 i 1) by lia. change (2 ^ 1) with 2.
+    destruct (Z.testbit kw (i + rsh)); cbn [Z.b2z] in Eb; rewrite <- Eb; ring.
+Qed.
+
+Lemma blind_rot_loop_spec n kw sign rsh lsh : 0 < n -> 0 <= rsh -> 0 <= lsh -> forall cnt i a, 0 <= i -> i + rsh + Z.of_nat cnt <= 32 ->
+  exists r, blind_rot_loop n (bits_of 32 kw) sign rsh lsh i cnt a = Some r /\
+            forall j, 0 <= j < n -> r j = p_rot n ((if sign then 1 else -1) * rot_amount kw rsh lsh i cnt) a j.
+Proof.
+  intros Hn Hr Hl. induction cnt as [|c IH]; intros i a Hi Hle.
+  - exists a; split; [reflexivity|]. intros j Hj. cbn [rot_amount]. rewrite Z.mul_0_r.
+    unfold p_rot. cbv zeta. rewrite Z.sub_0_r, Z.div_small, Z.mod_small by lia. reflexivity.
+  - cbn [blind_rot_loop]. rewrite kbit_bits_of by (cbn; lia).
+    rewrite Z.shiftl_mul_pow2, Z.mul_1_l by lia. set (bit := Z.testbit kw (i + rsh)).
+    destruct (IH (i + 1) (if bit then p_rot n (if sign then 2 ^ (i + lsh) else - 2 ^ (i + lsh)) a else a) ltac:(lia) ltac:(lia))
+      as (r & Er & Hr').
+    exists r; split; [exact Er|]. intros j Hj. rewrite Hr' by auto. cbn [rot_amount]. fold bit.
+    destruct bit.
+    + rewrite p_rot_rot by auto. f_equal; try (destruct sign; ring).
+    + f_equal; try (destruct sign; ring).
+Qed.
+
+(* glwe_blind_rotation(a, k, sign, bit_rsh, bit_mask, bit_lsh) = a * X^(+-((k >> bit_rsh) mod 2^bit_mask) << bit_lsh) *)
+Lemma blind_rotation_amount n kw sign rsh mask lsh a : 0 < n -> 0 <= rsh -> 0 <= mask -> 0 <= lsh -> rsh + mask <= 32 ->
+  exists r, glwe_blind_rotation n (bits_of 32 kw) sign rsh mask lsh a = Some r /\
+            forall j, 0 <= j < n ->
+              r j = p_rot n ((if sign then 1 else -1) * (((kw / 2 ^ rsh) mod 2 ^ mask) * 2 ^ lsh)) a j.
+Proof.
+  intros Hn Hr Hm Hl Hle. unfold glwe_blind_rotation.
+  destruct (blind_rot_loop_spec n kw sign rsh lsh Hn Hr Hl (Z.to_nat mask) 0 a ltac:(lia) ltac:(lia)) as (r & Er & Hr').
+  exists r; split; [exact Er|]. intros j Hj. rewrite Hr' by auto.
+  rewrite rot_amount_closed by lia. rewrite Z2Nat.id, Z.add_0_r by lia. change (2 ^ 0) with 1. f_equal. ring.
+Qed.
